@@ -376,4 +376,84 @@ example : (fnToSympy Generated.tables [fallFn] 20 fallFn none).toOption.isSome =
       = some (.num (1/4)) := by
   decide +kernel
 
+/-! ### facts read from the source text of `_check_branch`, `_handle_expr`, `_handle_fn_body` -/
+
+/-- **`_check_branch` is `branchOk`.** The accepting conditions of `_check_branch`, as `translate/c06.py` reads them from the
+current source (`Generated.checkBranchAccept`: each `if <conjunction>: return` before the final `raise`, every conjunct
+recognised by its source text), decide exactly the `branchOk` that `trLoop` applies — for every branch and continuation. -/
+theorem C06_check_branch_generated (rest b : List PyStmt) :
+    checkBranchG Generated.checkBranchAccept rest b = branchOk rest b := by
+  unfold branchOk
+  rw [assignOnly_eq_plain]
+  simp only [checkBranchG, Generated.checkBranchAccept, List.any_cons, List.any_nil, List.all_cons, List.all_nil,
+    Bool.and_true, Bool.or_false, cbAtom]
+  cases hp : (!b.isEmpty && b.all isPlainAssign) with
+  | false => simp
+  | true =>
+    have hall : b.all isPlainAssign = true := by
+      simp only [Bool.and_eq_true] at hp; exact hp.2
+    rw [lastAssigned_plain b hall]
+    cases rest with
+    | nil => simp
+    | cons r rs =>
+      cases rs with
+      | cons r2 rs2 =>
+        simp only [List.isEmpty_cons, List.length_cons, Bool.true_and, Bool.false_or]
+        cases bodyReturns b <;> simp <;> omega
+      | nil =>
+        simp only [List.isEmpty_cons, List.length_cons, List.length_nil, List.head?_cons, Bool.true_and, Bool.false_or]
+        cases r with
+        | ret e =>
+          cases e with
+          | name n =>
+            cases hg : b.getLast? with
+            | none => simp
+            | some t => cases t <;> simp
+          | _ => simp
+        | _ => simp
+
+/-- **Every expression class outside the generated list is refused.** `Generated.exprKinds` = the `ast` classes
+`_handle_expr` tests with `isinstance` before its final `raise NotImplementedError`; a node of any other class (BoolOp,
+Lambda, NamedExpr, Subscript, Tuple, …: the model's `unsupported`) has no translation. -/
+theorem C06_unlisted_expr_refused (e : PyExpr) (h : exprClass e ∉ Generated.exprKinds)
+    (P : Prog) (f : Nat) (G : List (String × GVal)) (I : Imps) (ctx : Syms) :
+    (trExpr Generated.tables P f G I ctx e).toOption = none := by
+  cases f with
+  | zero => rfl
+  | succ f =>
+    cases e with
+    | unsupported => rw [trExpr]; rfl
+    | _ => exact absurd (by simp [exprClass, Generated.exprKinds]) h
+
+/-- … and every listed class has a constructor in the model (no class is dispatched on that the model ignores) -/
+theorem C06_expr_kinds_covered :
+    Generated.exprKinds.all (fun k => ["Constant", "Name", "Attribute", "UnaryOp", "BinOp", "Compare", "IfExp", "Call"].contains k) = true := by
+  decide
+
+/-- **Every statement class outside the generated list is refused** (`for`, `while`, `with`, augmented and annotated
+assignment, `try`, `match`, nested `def`, …), wherever it stands. -/
+theorem C06_unlisted_stmt_refused (st : PyStmt) (h : stmtClass st ∉ Generated.stmtKinds)
+    (P : Prog) (f : Nat) (G : List (String × GVal)) (I : Imps) (body rest : List PyStmt)
+    (pieces : List (SExpr × SExpr)) (isElif : Bool) (ctx : Syms) :
+    (trLoop Generated.tables P f G I body pieces (st :: rest) isElif ctx).toOption = none := by
+  cases f with
+  | zero => rfl
+  | succ f =>
+    have hs : Generated.tables.unknownStmtRefused = true := rfl
+    cases st with
+    | augAssign x op e => simp only [trLoop, hs]; rfl
+    | unhandled => simp only [trLoop, hs]; rfl
+    | _ => exact absurd (by simp [stmtClass, Generated.stmtKinds]) h
+
+theorem C06_stmt_kinds_covered :
+    Generated.stmtKinds.all (fun k => ["If", "Return", "Assign", "Import", "ImportFrom", "Expr", "Pass"].contains k) = true := by
+  decide
+
+/-- non-vacuity of the accepted fall-through shape, and the shape of the round-3 seeded change (the returned name is
+assigned in the branch, but not last) is not accepted -/
+example :
+    branchOk [.ret (.name "v")] [.assign "s" (.num 1), .assign "v" (.num 2)] = true ∧
+    branchOk [.ret (.name "v")] [.assign "v" (.num 2), .assign "s" (.num 1)] = false ∧
+    branchOk [.ret (.name "v")] [.multiAssign ["v", "s"] (.num 2)] = false := by decide
+
 end Mxl.C06
